@@ -25,11 +25,12 @@ MCInit ==
   /\ delivered = [t \in Topics |-> <<>>]
   /\ base = [t \in Topics |-> 0]
 
-Deliver(t, ck, rs) ==
-  /\ delivered' = IF ck THEN [delivered EXCEPT ![t] = @ \o rs] ELSE delivered
-  /\ UNCHANGED base
-
-CursorFuns(S) == {f \in [Topics -> UNION {S[t] : t \in Topics}] : \A t \in Topics : f[t] \in S[t]}
+(* c: the position the read found the consumer at; it fixes `base` if a restart left it open *)
+Deliver(t, ck, c, rs) ==
+  IF ck /\ rs # <<>>
+  THEN /\ delivered' = [delivered EXCEPT ![t] = @ \o rs]
+       /\ base' = IF slack[t] > 0 THEN [base EXCEPT ![t] = c] ELSE base
+  ELSE UNCHANGED <<delivered, base>>
 
 MCAppend  == \E t \in Topics, s \in Sizes : Room(t, 1) /\ AppendOk(t, <<NewKey(t), s>>) /\ UNCHANGED <<delivered, base>>
 MCFail    == \E t \in Topics : AppendFail(t) /\ UNCHANGED <<delivered, base>>
@@ -37,34 +38,29 @@ MCBatch   == \E t \in Topics, s1 \in Sizes, s2 \in Sizes :
                /\ Room(t, 2)
                /\ BatchOk(t, <<<<NewKey(t), s1>>, <<NewKey(t) + 1, s2>>>>)
                /\ UNCHANGED <<delivered, base>>
-MCRead    == \E t \in Topics, ck \in BOOLEAN :
-               LET rs == IF Unread(t) = <<>> THEN <<>> ELSE <<Head(Unread(t))>> IN
-               ReadNext(t, ck, rs) /\ Deliver(t, ck, rs)
-MCBRead   == \E t \in Topics, b \in Budgets, ck \in BOOLEAN, k \in 0 .. maxBatch :
-               /\ k <= Len(Unread(t))
-               /\ LET rs == SubSeq(Unread(t), 1, k) IN BatchRead(t, b, ck, rs) /\ Deliver(t, ck, rs)
+MCRead    == \E t \in Topics, ck \in BOOLEAN : \E c \in Cands(t) :
+               LET rs == IF UnreadFrom(t, c) = <<>> THEN <<>> ELSE <<Head(UnreadFrom(t, c))>> IN
+               ReadNext(t, ck, c, rs) /\ Deliver(t, ck, c, rs)
+MCBRead   == \E t \in Topics, b \in Budgets, ck \in BOOLEAN, k \in 0 .. maxBatch : \E c \in Cands(t) :
+               /\ k <= Len(UnreadFrom(t, c))
+               /\ LET rs == SubSeq(UnreadFrom(t, c), 1, k) IN BatchRead(t, b, ck, c, rs) /\ Deliver(t, ck, c, rs)
 MCORead   == \E t \in Topics, b \in Budgets, ck \in BOOLEAN, from \in 1 .. MaxLen, k \in 0 .. 2 :
                /\ from + k - 1 <= Len(log[t])
                /\ OffsetRead(t, b, ck, 0, SubSeq(log[t], from, from + k - 1))
                /\ UNCHANGED <<delivered, base>>
 MCMark    == \E t \in Topics, v \in BOOLEAN : Mark(t, v) /\ UNCHANGED <<delivered, base>>
-MCRestart == \E c \in CursorFuns(RestartChoices(0)) :
-               /\ RestartTo(0, c)
-               /\ delivered' = [t \in Topics |-> <<>>]
-               /\ base' = c
+MCRestart == /\ Restart(0)
+             /\ delivered' = [t \in Topics |-> <<>>]
+             /\ base' = cur
 MCCrash   == \E t \in Topics, kind \in {"none", "append", "batch", "read"}, atomic \in BOOLEAN :
                LET inf == CASE kind = "none"   -> <<>>
                             [] kind = "append" -> <<"append", t, <<<<NewKey(t), 1>>>>>>
                             [] kind = "batch"  -> <<"batch", t, <<<<NewKey(t), 1>>, <<NewKey(t) + 1, 1>>>>>>
                             [] kind = "read"   -> <<"read", t, 1>>
                IN /\ (kind \in {"append", "batch"} => Room(t, 2))
-                  /\ \E kept \in KeptChoices(inf, atomic) :
-                       LET newLen(u) == Len(log[u]) + (IF kept # <<>> /\ inf[2] = u THEN Len(kept) ELSE 0)
-                           S == [u \in Topics |-> CrashCursorChoices(0, u, inf, newLen(u))]
-                       IN \E c \in CursorFuns(S) :
-                            /\ Crash(0, inf, atomic, kept, c)
-                            /\ delivered' = [u \in Topics |-> <<>>]
-                            /\ base' = c
+                  /\ \E kept \in KeptChoices(inf, atomic) : Crash(0, inf, atomic, kept)
+                  /\ delivered' = [u \in Topics |-> <<>>]
+                  /\ base' = cur'
 MCReclaim == \E t \in Topics, p \in 1 .. MaxLen :
                /\ p <= Len(log[t])
                /\ Reclaim({<<t, p>>})
@@ -77,12 +73,13 @@ MCSpec == MCInit /\ [][MCNext]_mvars
 (* ---- the properties, as theorems of the contract ---- *)
 (* C01/C05: within a process lifetime the consuming reads of a topic return exactly the    *)
 (* entries base+1 .. cur of its log: each once, in order, nothing skipped.                *)
-InvDelivered == \A t \in Topics : delivered[t] = SubSeq(log[t], base[t] + 1, cur[t])
+InvDelivered == \A t \in Topics : IF slack[t] > 0 THEN delivered[t] = <<>>
+                                   ELSE delivered[t] = SubSeq(log[t], base[t] + 1, cur[t])
 (* C04/C07: acknowledged entries are never removed or reordered. *)
 PropAppendOnly == [][\A t \in Topics : IsPrefix(log[t], log'[t])]_mvars
 (* C06/C09: a restart never skips (cursor never moves forward past what was delivered),     *)
 (* and in StrictlyAtOnce mode it does not move at all unless a read was in flight.        *)
-PropNoSkip == [][\A t \in Topics : cur'[t] > cur[t] => (Len(delivered'[t]) > Len(delivered[t]) \/ delivered'[t] = <<>>)]_mvars
+PropNoSkip == [][\A t \in Topics : cur'[t] - slack'[t] > cur[t] => (Len(delivered'[t]) > Len(delivered[t]) \/ delivered'[t] = <<>>)]_mvars
 (* C12 *)
 InvReclaim == InvReclaimedConsumed
 (* C03 is built into LegalBatch; this makes TLC confirm that budget 0 still progresses.   *)
